@@ -36,6 +36,10 @@ struct MockState {
     discovery_reply: Vec<proto::Target>,
     select_reply: Option<Reply>,
     last_select: Option<proto::SelectRequest>,
+    /// so many select requests are answered with this gRPC status code first (every request is recorded)
+    fail_selects: usize,
+    fail_code: i32,
+    all_selects: Vec<proto::SelectRequest>,
 }
 
 #[derive(Clone)]
@@ -70,6 +74,12 @@ impl Strategy for Mock {
     async fn select_target(&self, r: tonic::Request<proto::SelectRequest>) -> Result<tonic::Response<proto::SelectResponse>, tonic::Status> {
         let req = r.into_inner();
         let mut st = self.0.lock().unwrap();
+        st.all_selects.push(req.clone());
+        if st.fail_selects > 0 {
+            st.fail_selects -= 1;
+            st.last_select = Some(req);
+            return Err(tonic::Status::new(tonic::Code::from_i32(st.fail_code), "not now (on purpose)"));
+        }
         let target = match st.select_reply.clone().unwrap_or(Reply::None) {
             Reply::Echo(i) => req.targets.get(i).cloned(),
             Reply::Foreign(t) => Some(t),
@@ -385,6 +395,56 @@ async fn check_overlapping_discovery(cx: &Ctx) {
     }
 }
 
+
+/// The strategy service answers the first request(s) of a login with an error status (UNAVAILABLE, DEADLINE_EXCEEDED,
+/// INTERNAL, RESOURCE_EXHAUSTED) and is healthy afterwards: whatever the adapter does about it - give up, ask again -
+/// every request that reaches the service carries the candidates, player and addresses unaltered, and so does the
+/// next, ordinary call.
+async fn check_select_after_errors(cx: &Ctx) {
+    let cands: Vec<Target> = vec![
+        Target { identifier: "lobby-1".into(), address: "10.0.0.1:25565".parse().unwrap(), meta: [("players".to_string(), "17".to_string()), ("region".to_string(), "eu".to_string())].into_iter().collect() },
+        Target { identifier: "lobby-2".into(), address: "[2001:db8::2]:25566".parse().unwrap(), meta: [("players".to_string(), "3".to_string())].into_iter().collect() },
+    ];
+    for code in [14, 4, 13, 8] {
+        for failures in [1usize, 2] {
+            let peer = start_peer().await;
+            {
+                let mut st = peer.state.lock().unwrap();
+                st.fail_selects = failures;
+                st.fail_code = code;
+                st.select_reply = Some(Reply::Echo(1));
+            }
+            let client: SocketAddr = "203.0.113.9:40000".parse().unwrap();
+            let user = Uuid::from_u128(77);
+            let mut results = vec![];
+            for _ in 0..3 {
+                cx.rpcs.fetch_add(1, Ordering::Relaxed);
+                results.push(peer.strat.select(&client, ("h.example", 25565), 769, ("Player", &user), cands.clone()).await);
+            }
+            let seen = peer.state.lock().unwrap().all_selects.clone();
+            let replay = json!({"direction": "select-after-errors", "status": code, "failures": failures});
+            for (i, req) in seen.iter().enumerate() {
+                let same = req.targets.len() == cands.len()
+                    && cands.iter().zip(&req.targets).all(|(c, t)| {
+                        let meta: HashMap<String, String> = t.meta.iter().map(|e| (e.key.clone(), e.value.clone())).collect();
+                        t.identifier == c.identifier && t.address.as_ref().is_some_and(|a| a.hostname.parse::<IpAddr>().ok() == Some(c.address.ip()) && a.port == c.address.port() as u32) && meta == c.meta && t.meta.len() == c.meta.len()
+                    });
+                let who = req.username == "Player" && req.client_address.as_ref().is_some_and(|a| a.hostname.parse::<IpAddr>().ok() == Some(client.ip()) && a.port == client.port() as u32);
+                if !same || !who {
+                    bad(cx, "select-candidate-altered:after-error-status".into(), format!("the service answered the first {failures} request(s) with gRPC status {code}; request #{i} of {} reached it with candidates {:?} for player {:?} (sent: {:?})", seen.len(), req.targets.iter().map(|t| (t.identifier.clone(), t.meta.iter().map(|e| (e.key.clone(), e.value.clone())).collect::<Vec<_>>())).collect::<Vec<_>>(), req.username, cands.iter().map(|c| (c.identifier.clone(), c.meta.clone())).collect::<Vec<_>>()), replay.clone(), 4);
+                    break;
+                }
+            }
+            match results.last() {
+                Some(Ok(Some(t))) if t.identifier == cands[1].identifier && t.address == cands[1].address && t.meta == cands[1].meta => {
+                    cx.ok_targets.fetch_add(1, Ordering::Relaxed);
+                }
+                other => bad(cx, "select-choice-altered:after-error-status".into(), format!("after {failures} request(s) answered with status {code} the service is healthy and picks lobby-2 as it received it; the third select() returned {other:?}"), replay, 4),
+            }
+        }
+    }
+}
+
 /// Whole connections through the real Listener (PROXY protocol on) whose discovery and strategy are the gRPC
 /// adapters: the service is sent the player's announced source address, the handshake's server address and the
 /// discovered candidates unaltered, and the player is transferred to the candidate the service picked.
@@ -664,6 +724,7 @@ pub fn run(cli: Cli) -> ! {
 
     let whole = crate::net::run_local(async {
         check_overlapping_discovery(&cx).await;
+        check_select_after_errors(&cx).await;
         check_whole_connections(&cx).await
     });
     cx.rep.set("whole_connections_through_the_listener", json!(whole));
